@@ -155,6 +155,9 @@ def build_jobs(rng, per_codemod: int, variants_per_seed: int, only=None, include
         for s in chosen:
             shift_ok = s["tool"] is None and s["filename"] == "code.py"
             vs = variants(s["code"], shift_ok, rng)
+            if s["tool"] == "defectdojo":
+                # DefectDojo findings carry a line only: spellings that keep every statement on its line are fair game
+                vs = vs + [v for v in binding_variants(s["code"]) if v[0] == "aliased_import_renamed"] + module_alias_variants(s["code"])
             ident = vs[0]
             rest = vs[1:]
             rng.shuffle(rest)
@@ -596,6 +599,42 @@ def binding_variants(code: str):
     return out
 
 
+def module_alias_variants(code: str):
+    """`import m` spelled `import m as m_al` with every use of `m` renamed (line numbers unchanged)."""
+    import ast
+    import io
+    import tokenize
+    try:
+        tree = ast.parse(code)
+    except (SyntaxError, ValueError, RecursionError):
+        return []
+    code_nl = code if code.endswith("\n") else code + "\n"
+    for n in tree.body:
+        if isinstance(n, ast.Import) and len(n.names) == 1 and n.names[0].asname is None and "." not in n.names[0].name and n.lineno == n.end_lineno:
+            name = n.names[0].name
+            alias = name + "_al"
+            try:
+                toks = list(tokenize.generate_tokens(io.StringIO(code_nl).readline))
+            except (tokenize.TokenError, IndentationError, SyntaxError):
+                return []
+            lines = code_nl.splitlines(keepends=True)
+            edits, prev = [], None
+            for t in toks:
+                if t.type == tokenize.NAME and t.string == name and t.start[0] != n.lineno and not (prev and prev.type == tokenize.OP and prev.string == "."):
+                    edits.append(t)
+                if t.type not in (tokenize.NL, tokenize.COMMENT):
+                    prev = t
+            for t in sorted(edits, key=lambda t: t.start, reverse=True):
+                r, c0, c1 = t.start[0] - 1, t.start[1], t.end[1]
+                lines[r] = lines[r][:c0] + alias + lines[r][c1:]
+            il = lines[n.lineno - 1]
+            lines[n.lineno - 1] = il.rstrip("\r\n").rstrip() + f" as {alias}" + il[len(il.rstrip("\r\n")):]
+            new = "".join(lines)
+            if new != code_nl and parses(new):
+                return [("module_alias_renamed", new)]
+    return []
+
+
 def composed_variants(code: str, rng, k=4):
     """A structural wrapper with a layout / comment / context variant applied on top of it."""
     base = [v for v in _variants_basic(code, True) if v[0].startswith("in_")]
@@ -625,5 +664,6 @@ def variants(code: str, shift_ok: bool, rng=None):  # noqa: F811
         out.extend(comment_variants(code if code.endswith("\n") else code + "\n"))
         out.extend(own_block_variants(code if code.endswith("\n") else code + "\n", rng))
         out.extend(binding_variants(code))
+        out.extend(module_alias_variants(code))
         out.extend(composed_variants(code if code.endswith("\n") else code + "\n", rng or __import__("random").Random(0)))
     return out
